@@ -100,6 +100,10 @@ inductive Op
   | skip (n : Nat)
   /-- `obj.shape = new_shape` (redraws `phi_l`, `psi_l`) -/
   | setShape (s : ShapeArg)
+  /-- any call of the non-mutating API: `get_samples()`, the `shape` / `L` / `Ts` /
+      `Fd` properties, `repr`, `==`, `copy`, `deepcopy`, `pickle.dumps`,
+      `get_similar_fading_generator()` (robustness class R11) -/
+  | query
   deriving DecidableEq, Repr, Inhabited
 
 /-- `if num_samples is None: num_samples = 1` -/
@@ -120,6 +124,7 @@ def step (s : State) : Op → State
   | .gen n => { s with k := s.k + reqCount n, last := some (genBlock s n) }
   | .skip n => { s with k := s.k + n }
   | .setShape a => { s with shape := a.norm, epoch := s.epoch + 1 }
+  | .query => s
 
 /-- the array produced by one operation (only `gen` produces one) -/
 def produced (s : State) : Op → Option Block
@@ -150,6 +155,7 @@ def Op.size : Op → Nat
   | .gen n => reqCount n
   | .skip n => n
   | .setShape _ => 0
+  | .query => 0
 
 def total : List Op → Nat
   | [] => 0
@@ -213,6 +219,7 @@ inductive RawOp
   | gen (a : SizeArg)
   | skip (a : SizeArg)
   | setShape (a : RawShape)
+  | query
   deriving DecidableEq, Repr, Inhabited
 
 /-- `operator.index(n)`, then `n < 0 → ValueError` -/
@@ -239,6 +246,16 @@ def RawOp.check : RawOp → Except PyErr Op
   | .setShape (.int z) => (checkSize z).map fun n => .setShape (.int n)
   | .setShape (.seq d) => (checkDims d).map fun ns => .setShape (.tuple ns)
   | .setShape .notShape => .error .TypeError
+  | .query => .ok .query
+
+/-- a history with its non-mutating calls removed -/
+def dropQueries : List Op → List Op
+  | [] => []
+  | .query :: ops => dropQueries ops
+  | op :: ops => op :: dropQueries ops
+
+/-- shape, first sample number and count of a block (everything but the phase draw) -/
+def Block.geometry (b : Block) : List Nat × Nat × Nat := (b.dims, b.first, b.count)
 
 /-- one call on the object: a rejected call raises and changes nothing -/
 def stepR (s : State) (r : RawOp) : State × Option PyErr :=
